@@ -55,18 +55,40 @@ FORMULAS = {
 NORMALISED = ["ndvi", "nbr", "nbr2", "ndmi"]
 
 
+SIGNED_DTYPES = [np.int16, np.int32, np.int64, np.float32, np.float64]
+# values at and just beyond the edges of the 8- and 16-bit types (all sums the kernels form from them stay exact in float32)
+EDGES = {"uint8": [0, 1, 254, 255], "uint16": [0, 255, 256, 65534, 65535], "int16": [-32768, -32767, -1, 0, 255, 256, 32767],
+         "wide": [-32769, -32768, -256, -1, 0, 255, 256, 32767, 32768, 65535, 65536, 100000]}
+SIGN_KINDS = ["signed", "slightly-negative", "both-negative", "opposite"]
+
+
 def gen_band(rng, shape, dtype, kind):
+    """kinds: zeros / small / wide / dyadic (non-negative, as before); signed (-16..16, any sign per cell); both-negative;
+    slightly-negative and opposite are made from these by `make_case`; edges: values at the edges of the band's own dtype.
+    A kind the dtype cannot hold degrades to its absolute values (unsigned) / integers (integer dtypes)."""
     h, w = shape
     n = h * w
+    dt = np.dtype(dtype)
     if kind == "zeros":
         vals = [0] * n
     elif kind == "small":
         vals = [rng.choice([0, 0, 1, 2, 3, 4, 5, 8, 16]) for _ in range(n)]
     elif kind == "wide":
         vals = [rng.randrange(0, 250) for _ in range(n)]
+    elif kind == "signed":
+        vals = [rng.randrange(-128, 129) / 8 if dt.kind == "f" else rng.randrange(-16, 17) for _ in range(n)]
+    elif kind == "both-negative":
+        vals = [-rng.choice([0, 1, 2, 3, 4, 5, 8, 16, 100]) for _ in range(n)]
+    elif kind == "edges":
+        pool = EDGES.get(dt.name, EDGES["wide"])
+        if dt.kind == "u":
+            pool = [v for v in pool if v >= 0]
+        vals = [rng.choice(pool) for _ in range(n)]
     else:  # dyadic
         vals = [rng.randrange(0, 64) / 8 for _ in range(n)]
     a = np.array(vals, dtype=np.float64).reshape(h, w)
+    if dt.kind == "u":
+        a = np.abs(a)
     if np.issubdtype(dtype, np.integer):
         a = np.floor(a)
     a = a.astype(dtype)
@@ -197,24 +219,42 @@ def model_request(kernel, kinfo, bands, scal_in_kernel_order):
 
 
 def make_case(rng, fn, valid=True):
+    """band value classes: non-negative (zeros / small / wide / dyadic), sign classes (signed: any sign per cell;
+    slightly-negative: non-negative bands, a few small negative cells in ONE band; both-negative; opposite: second band =
+    minus the first, every denominator of a normalised difference zero), edges (values at the edges of each band's dtype);
+    dtypes: one for all bands, or (35%, always for edges) each band its own -- uint8..int64, float32/64."""
     names, snames, _ = FORMULAS[fn]
     shape = (rng.randrange(1, 5), rng.randrange(1, 6))
-    dtype = rng.choice(DTYPES)
-    kind = rng.choice(["small", "small", "dyadic", "wide", "zeros"])
-    bands = [gen_band(rng, shape, dtype, kind) for _ in names]
-    if rng.random() < 0.3 and len(bands) >= 2:
+    kind = rng.choice(["small", "small", "dyadic", "wide", "zeros", "edges", "edges"] + SIGN_KINDS)
+    signed = kind in SIGN_KINDS
+    mixed = kind == "edges" or rng.random() < 0.35
+    pool = SIGNED_DTYPES if signed else DTYPES
+    dtype = rng.choice(pool)
+    dtypes = [rng.choice(pool) if mixed else dtype for _ in names]
+    base_kind = {"slightly-negative": rng.choice(["small", "wide", "dyadic"]), "opposite": "signed"}.get(kind, kind)
+    bands = [gen_band(rng, shape, dt, base_kind) for dt in dtypes]
+    if kind == "slightly-negative":
+        i = rng.randrange(len(bands))
+        for _ in range(rng.randrange(1, 4)):
+            y, x = rng.randrange(shape[0]), rng.randrange(shape[1])
+            bands[i][y, x] = rng.choice([-1, -2, -0.125, -0.5]) if bands[i].dtype.kind == "f" else rng.choice([-1, -2, -3])
+    elif kind == "opposite" and len(bands) >= 2:
+        bands[1] = (-bands[0].astype(np.float64)).astype(bands[1].dtype)
+    elif rng.random() < 0.3 and len(bands) >= 2 and not mixed:
         bands[1] = bands[0].copy()  # equal bands -> zero numerators / denominators
-    return dict(fn=fn, bands=bands, scal=gen_scalars(rng, fn, valid), dtype=np.dtype(dtype).name, kind=kind)
+    return dict(fn=fn, bands=bands, scal=gen_scalars(rng, fn, valid), dtype=np.dtype(dtype).name,
+                dtypes=[b.dtype.name for b in bands], kind=kind, mixed=len({b.dtype.name for b in bands}) > 1)
 
 
 def case_json(c):
-    return dict(fn=c["fn"], dtype=c["dtype"], scal=c["scal"],
-                bands=[[[tok(v) for v in row] for row in b.tolist()] for b in c["bands"]])
+    return dict(fn=c["fn"], dtype=c["dtype"], dtypes=[b.dtype.name for b in c["bands"]], scal=c["scal"],
+                bands=[[[tok(v) for v in row] for row in b.astype(np.float64).tolist()] for b in c["bands"]])
 
 
 def case_from_json(j):
-    bands = [np.array([[_un(t) for t in row] for row in b], dtype=np.float64).astype(j["dtype"])
-             for b in j["bands"]]
+    dts = j.get("dtypes") or [j["dtype"]] * len(j["bands"])
+    bands = [np.array([[_un(t) for t in row] for row in b], dtype=np.float64).astype(dt)
+             for b, dt in zip(j["bands"], dts)]
     return dict(fn=j["fn"], bands=bands, scal=j["scal"], dtype=j["dtype"], kind="replay")
 
 
@@ -257,13 +297,145 @@ def oracle_true_color(c, out):
     return None
 
 
+# ---------------------------------------------------------------- several Dask-backed indices in ONE graph
+# "equals its band formula per cell" is a statement about the value of every index however it is computed: on
+# Dask-backed bands the value only exists once the graph is evaluated, and a scene's indices are evaluated together
+# (one dask.compute, one Dataset, ndvi - ndmi).  See harness/jointgraph.py.
+def mk_dask(a, chunks):
+    import dask.array as da
+    d = mk(a)
+    d.data = da.from_array(a, chunks=chunks)
+    return d
+
+
+def gen_jointgraph(rng, fn, modes):
+    """the first call as `make_case` draws it; every other call differs from it in exactly one place: one band (each band in
+    turn), one scalar parameter, nothing -- and may be handed to a sibling index with the same backend"""
+    base = make_case(rng, fn, True)
+    h, w = base["bands"][0].shape
+    calls, dims = [dict(fn=fn, bands=list(base["bands"]), scal=dict(base["scal"]))], []
+    for i in range(len(base["bands"])):
+        for _ in range(8):
+            nb = gen_band(rng, (h, w), base["bands"][i].dtype.type, rng.choice(["small", "dyadic", "wide", "signed"]))
+            if not np.array_equal(nb, base["bands"][i], equal_nan=True):
+                break
+        else:
+            continue
+        bands = list(base["bands"])
+        bands[i] = nb
+        calls.append(dict(fn=fn, bands=bands, scal=dict(base["scal"])))
+        dims.append(f"band:{i}")
+    for k in rng.sample(sorted(base["scal"]), min(1, len(base["scal"]))):
+        for _ in range(12):
+            v = gen_scalars(rng, fn, True)[k]
+            if v != base["scal"][k]:
+                calls.append(dict(fn=fn, bands=list(base["bands"]), scal=dict(base["scal"], **{k: v})))
+                dims.append(f"param:{k}")
+                break
+    calls.append(dict(fn=fn, bands=list(base["bands"]), scal=dict(base["scal"])))
+    dims.append("identical")
+    if fn in NORMALISED:
+        for i in range(1, len(calls)):
+            if rng.random() < 0.4:
+                calls[i]["fn"] = rng.choice([f for f in NORMALISED if f != fn])
+                dims[i - 1] += "+sibling"
+    chunks = (rng.randrange(1, h + 1), rng.randrange(1, w + 1))
+    return dict(calls=calls, dims=dims, modes=modes, chunks=list(chunks), dtype=base["dtype"],
+                sched=rng.choice([["synchronous", None], ["threads", 4]]))
+
+
+def jointgraph_json(g, mode):
+    return dict(stream="joint-graph", dtype=g["dtype"], chunks=g["chunks"], sched=g["sched"], mode=mode, dims=g["dims"],
+                calls=[dict(fn=c["fn"], scal=c["scal"], dtypes=[b.dtype.name for b in c["bands"]],
+                            bands=[[[tok(v) for v in row] for row in b.astype(np.float64).tolist()] for b in c["bands"]])
+                       for c in g["calls"]],
+                note="these indices are called on Dask-backed bands and their lazy results evaluated in ONE graph (mode compute: "
+                     "dask.compute(a.data, b.data, ...); dataset: xr.Dataset({...}).compute(); minus: (a - b).data.compute()); each "
+                     "value must equal the band formula and the NumPy-backed call")
+
+
+def jointgraph_from_json(j):
+    calls = [dict(fn=c["fn"], scal=c["scal"],
+                  bands=[np.array([[_un(t) for t in row] for row in b], dtype=np.float64).astype(dt)
+                         for b, dt in zip(c["bands"], c.get("dtypes") or [j["dtype"]] * len(c["bands"]))])
+             for c in j["calls"]]
+    return dict(calls=calls, dims=j.get("dims", []), modes=[j["mode"]], chunks=j["chunks"], dtype=j["dtype"], sched=j["sched"])
+
+
+def check_jointgraph(r, g):
+    """-> number of failures reported"""
+    import dask.array as da
+    import jointgraph
+    import xrspatial.multispectral as ms
+    expected = []
+    for c in g["calls"]:
+        st, out = call_index(c["fn"], c["bands"], c["scal"])
+        if st != "ok":
+            r.tag("joint-graph:skipped(numpy call raises)")
+            return 0
+        expected.append(out)
+    for mode in g["modes"]:
+        lazies = [getattr(ms, c["fn"])(*[mk_dask(b, tuple(g["chunks"])) for b in c["bands"]], **c["scal"]) for c in g["calls"]]
+        if not all(isinstance(z.data, da.Array) for z in lazies):
+            r.tag("joint-graph:result-not-lazy")
+            return 0
+        eff = jointgraph.effective_mode(lazies, mode)
+        key = jointgraph_json(g, mode)
+        r.case(key, nontrivial=jointgraph.distinct(expected),
+               tags=["stream:joint-graph", f"jg-mode:{eff}", f"jg-fn:{g['calls'][0]['fn']}", f"jg-size:{len(lazies)}"] +
+                    sorted({"jg-differs-in:" + d.split(":")[0].split("+")[0] for d in g["dims"]}))
+        try:
+            kind, got = jointgraph.evaluate(lazies, eff, tuple(g["sched"]))
+        except Exception as ex:  # noqa: BLE001
+            r.fail(f"{g['calls'][0]['fn']}:joint-graph", f"evaluating {len(lazies)} lazy indices in one graph [{eff}] raised "
+                   f"{type(ex).__name__}: {str(ex)[:200]}", key)
+            return 1
+        bad = None
+        if kind == "each":
+            for i, (c, e, v) in enumerate(zip(g["calls"], expected, got)):
+                bad = oracle_index(c["fn"], c["bands"], c["scal"], "ok", v)
+                if not bad and not jointgraph.same_cells(e.astype(np.float64), v.astype(np.float64)):
+                    idx = tuple(int(t) for t in np.argwhere(~((e == v) | (np.isnan(e) & np.isnan(v))))[0]) if e.shape == v.shape else ()
+                    bad = f"{c['fn']}: Dask value differs from the NumPy-backed call at {idx}"
+                if bad:
+                    bad = f"call #{i} ({c['fn']}, differs from call #0 in {g['dims'][i - 1] if i else 'nothing'}): " + bad
+                    break
+        else:
+            for i, v in enumerate(got, start=1):
+                d = jointgraph.minus_bad(expected[0], expected[i], v)
+                if d:
+                    bad = f"{g['calls'][0]['fn']} (call #0) - {g['calls'][i]['fn']} (call #{i}, differs in {g['dims'][i - 1]}): " + d
+                    break
+        if bad:
+            r.fail(f"{g['calls'][0]['fn']}:joint-graph", f"{len(lazies)} lazy indices evaluated in one graph [{eff}]: " + bad, key)
+            return 1
+    return 0
+
+
+def jointgraph_stream(r, per_fn, n_modes):
+    import jointgraph
+    k = r.rng.randrange(3)
+    for fn in FORMULAS:
+        for _ in range(per_fn):
+            modes = [jointgraph.MODES[(k + i) % 3] for i in range(n_modes)]
+            k += 1
+            check_jointgraph(r, gen_jointgraph(r.rng, fn, modes))
+
+
 # ---------------------------------------------------------------- the check
 def run(r, n_override=None):
     wir, rep = wiring()
     n_per = {"quick": 24, "thorough": 160}[r.tier] if n_override is None else n_override
-    r.rule = ("per index: random shape<=4x5, dtype in uint8..float64, bands from small ints / dyadics / 0..250 / zeros, "
+    r.rule = ("per index: random shape<=4x5; band value classes: non-negative (small ints / dyadics / 0..250 / zeros), sign classes "
+              "(any sign per cell; a few small negative cells in one band; all negative; second band = minus the first), values at the "
+              "edges of each band's dtype (0/255/256/65535/65536, -32768/-32769 ...); dtypes uint8..int64, float32/64 -- one for all "
+              "bands or (35%, always for the edge class) each band its own; "
               "equal bands 30%, NaN cells for floats, valid and invalid soil_factor/gain; non-trivial = distinct "
-              "(function, dtype, bands, scalars) with at least one defined and (when possible) one undefined cell")
+              "(function, dtype, bands, scalars) with at least one defined and (when possible) one undefined cell; "
+              "stream joint-graph: per index a group of calls on Dask-backed bands -- the first as above, the others differing "
+              "from it in exactly one place (each band in turn, one scalar parameter, nothing; NDVI/NDMI/NBR/NBR2 swapped for one "
+              "another 40%) -- whose lazy results are evaluated in ONE graph (dask.compute of all / xr.Dataset / a - b), each "
+              "value judged by the formula oracle and against the NumPy-backed call; non-trivial = the expected results differ")
     requests, pending = [], []
     for fn in FORMULAS:
         w = wir[fn]
@@ -274,7 +446,8 @@ def run(r, n_override=None):
             status, out = call_index(fn, c["bands"], c["scal"])
             bad = oracle_index(fn, c["bands"], c["scal"], status, out)
             r.case(case_json(c), desc=case_json(c) if k == 0 else None, nontrivial=(c["kind"] != "zeros"),
-                   tags=[f"fn:{fn}", f"dtype:{c['dtype']}", f"status:{status}", f"kind:{c['kind']}"])
+                   tags=[f"fn:{fn}", f"status:{status}", f"kind:{c['kind']}", "dtypes:" + ("mixed" if c["mixed"] else "one")] +
+                        sorted({f"dtype:{d}" for d in c["dtypes"]}))
             if bad:
                 r.fail(f"{fn}:formula", bad, case_json(c))
                 continue
@@ -313,6 +486,8 @@ def run(r, n_override=None):
                 requests.append(f"kernel name={kname} rows={h} cols={w_} "
                                 f"a:r={grid_tok(c['bands'][0].astype(np.float64))} s:nodata={tok(float(c['scal']['nodata']))}")
                 pending.append((dict(c, alpha=True), out[:, :, 3].astype(np.float64)))
+    jointgraph_stream(r, per_fn={"quick": 2, "thorough": 12}[r.tier] if n_override is None else max(2, n_override // 25),
+                      n_modes=2 if r.tier == "quick" else 3)
     from common import Driver
     replies = Driver().ask(requests)
     for (c, out), rep_line, req in zip(pending, replies, requests):
@@ -338,6 +513,14 @@ def search(r):
 
 
 def replay(r, body):
+    if body["case"].get("stream") == "joint-graph":
+        before = len(r.failures)
+        check_jointgraph(r, jointgraph_from_json(body["case"]))
+        if len(r.failures) > before:
+            print("still fails:", r.failures[-1]["what"])
+            return 1
+        print("does not fail on the current tree")
+        return 0
     c = case_from_json(body["case"])
     if c["fn"] == "true_color":
         bad = None
